@@ -131,6 +131,24 @@ def run(ctx: core.Ctx):
                 ctx.fail("zonal.mean", dict(data=data.tolist(), zones=zones.tolist(), dtype=odt, backend="dask"),
                          dict(dtype_lazy=str(rd.dtype), dtype_computed=str(rdc.values.dtype), equal=bool(np.array_equal(np.asarray(rn), np.asarray(rdc), equal_nan=True))),
                          "requested output dtype and the numpy result, for dask input too")
+        import dask
+        zones_b = np.roll(zones, 1, axis=1).copy()
+        zones_b[0, 0] = 255
+        zb = xr.DataArray(zones_b, dims=("y", "x"), attrs={"nodata": 255}, name="zones")
+        za = xr.DataArray(zones, dims=("y", "x"), attrs={"nodata": 255}, name="zones")
+        zad = xr.DataArray(da_.from_array(zones, chunks=zones.shape), dims=("y", "x"), attrs={"nodata": 255}, name="zones")
+        zbd = xr.DataArray(da_.from_array(zones_b, chunks=zones.shape), dims=("y", "x"), attrs={"nodata": 255}, name="zones")
+        for zza, zzb in ((za, zb), (zad, zbd)):
+            la = xdd.hdc.zonal.mean(zza, list(range(nz)), name="zmean")
+            lb = xdd.hdc.zonal.mean(zzb, list(range(nz)), name="zmean")
+            ca, cb = dask.compute(la, lb)
+            ea = xd.hdc.zonal.mean(za, list(range(nz)))
+            eb = xd.hdc.zonal.mean(zb, list(range(nz)))
+            ctx.count("joint compute of two zonal means")
+            if not (np.array_equal(np.asarray(ca), np.asarray(ea), equal_nan=True) and np.array_equal(np.asarray(cb), np.asarray(eb), equal_nan=True)):
+                ctx.fail("zonal.mean", dict(data=data.tolist(), zones_a=zones.tolist(), zones_b=zones_b.tolist(), config="two named lazy results computed in one dask graph"),
+                         dict(b=np.asarray(cb).tolist()), dict(b=np.asarray(eb).tolist()), note="each lazy result must equal its own in-memory result also when evaluated together")
+                break
         ctx.case(("acc", data.tobytes(), zones.tobytes()))
         ctx.count("accessor")
         for k in range(nz):
